@@ -266,9 +266,15 @@ pub fn ops<T: Transport>(mut t: T, version: u32, device_id: u32, n_ops: u64) {
                 }
             }
             7 | 8 => {
-                // queue_set on a queue that is not in use
-                if with(|w| w.tr.queues[q as usize].ready) {
+                // queue_set on a queue that is not in use - or, now and then, on one the device
+                // still has enabled (handed over live, or set twice): what it registers afterwards
+                // is judged, not the way there (a transport may or may not stop the queue first)
+                let live = with(|w| w.tr.queues[q as usize].ready);
+                if live && !flip(1, 4) {
                     continue;
+                }
+                if live {
+                    probe("queue_set_on_live_queue");
                 }
                 let size = 1u32 << choose(16);
                 if legacy {
@@ -287,7 +293,9 @@ pub fn ops<T: Transport>(mut t: T, version: u32, device_id: u32, n_ops: u64) {
                     t.queue_set(q, size, desc, driver, device);
                     let tr = cap_take();
                     oplog(|| format!("queue_set(q{q}, {size}, {desc:#x}, {driver:#x}, {device:#x}) legacy"));
-                    expect_framed("queue_set", &tr, &[w32(0x30, q as u64)], &[w32(0x38, size as u64), w32(0x3c, 4096)], &[w32(0x40, pfn)]);
+                    if !live {
+                        expect_framed("queue_set", &tr, &[w32(0x30, q as u64)], &[w32(0x38, size as u64), w32(0x3c, 4096)], &[w32(0x40, pfn)]);
+                    }
                     let r = with(|w| w.tr.queues[q as usize].clone());
                     if !(r.ready && r.size == size && r.desc == desc && r.driver == driver && r.device == device) {
                         violation("mmio-value", "queue_set", format!("device registered {r:x?}, driver passed size {size} {desc:#x} {driver:#x} {device:#x}"));
@@ -307,7 +315,9 @@ pub fn ops<T: Transport>(mut t: T, version: u32, device_id: u32, n_ops: u64) {
                         w32(0xa0, device & 0xffff_ffff),
                         w32(0xa4, device >> 32),
                     ];
-                    expect_framed("queue_set", &tr, &[w32(0x30, q as u64)], &mid, &[w32(0x44, 1)]);
+                    if !live {
+                        expect_framed("queue_set", &tr, &[w32(0x30, q as u64)], &mid, &[w32(0x44, 1)]);
+                    }
                     let r = with(|w| w.tr.queues[q as usize].clone());
                     if !(r.ready && r.size == size && r.desc == desc && r.driver == driver && r.device == device) {
                         violation("mmio-value", "queue_set", format!("device registered {r:x?}, driver passed size {size} {desc:#x} {driver:#x} {device:#x}"));
